@@ -44,6 +44,9 @@ class ExecBase:
             return
         if z3.is_true(goal):
             return
+        extra = dict(extra or {})
+        if z3.is_false(goal) and self.feasible(st):
+            extra["definite"] = True       # the goal is literally False: the obligation fails unless the path is infeasible
         n = self._oblig_counter.get(kind, 0) + 1
         self._oblig_counter[kind] = n
         oid = f"{self.fname}/{kind}/{n}"
